@@ -18,6 +18,7 @@ RULE = ("requests `rem|crem <form> <lhs> <rhs>` over all operand shapes and form
         "overflow signal is accepted only when p < q and a*10^(q-p) leaves i128. Non-trivial = scales differ")
 BUILDS = {"quick": [("dev", ()), ("release", ())],
           "thorough": [("dev", ()), ("release", ()), ("release", ("packed",)), ("o0-nochk", ())]}
+MODE_INDEPENDENT = True      # half of every batch runs under a non-default thread rounding mode
 REQUIRED_SITES = {"rem.eq": 100, "rem.gt.fit": 100, "rem.gt.ovf": 50, "rem.lt.fit": 100, "rem.lt.step": 100,
                   "rem.lt.step_ovf": 20}
 BUDGET = {"quick": 20, "thorough": 300}
@@ -67,8 +68,10 @@ def constructed(rng):
         k = q - p
         # dividend whose up-scaling overflows
         a = rng.randrange(M // P10[k] + 1, M + 1)
-        kind = rng.randrange(4)
-        if kind == 0:
+        kind = rng.randrange(5)
+        if kind == 4:
+            b = rng.randrange(P10[38 - k], min(M, P10[39 - k]) + 1)     # exactly 39-k digits: b * 10^k is a 39-digit number
+        elif kind == 0:
             b = rng.getrandbits(rng.randrange(1, 60)) + 1
         elif kind == 1:
             b = rng.randrange(M // 10 + 1, M + 1)          # rem * 10 can overflow
